@@ -61,6 +61,20 @@ def blocksFromNumWithForks (s : FState) (num : Nat) : Option (List Blk) :=
     let wanted := (sortById (s.db.entries.filter (fun e => e.blk.num ≥ num))).map (·.blk)
     some (wanted.foldl (fun acc b => insByNum b acc) [])
 
+/-- `BlockstreamServer.Blocks` (hub/blockstream.go): the block number a burst request stands for. `-1`: from the LIB
+    number the head declares; `-n`: from block n; `n ≥ 0`: the last n blocks, never below the first streamable block;
+    the last two never below the lowest block the hub can serve. -/
+def burstStart (burst : Int) (head headLib lowest fsb : Nat) : Nat :=
+  if burst == -1 then headLib
+  else if burst < -1 then max lowest (-burst).toNat
+  else max lowest (if burst.toNat > head || head - burst.toNat < fsb then fsb else head - burst.toNat)
+
+/-- what a block stream request is answered with before live blocks follow: the with-forks snapshot from there -/
+def blockstreamBurst (s : FState) (burst : Int) (fsb : Nat) : Option (List Blk) :=
+  match s.lastSent with
+  | none => none
+  | some h => blocksFromNumWithForks s (burstStart burst h.num h.lib ((lowestBlockNum s).getD 0) fsb)
+
 def blockIn (id : Id) (seg : List Entry) : Bool := seg.any (·.blk.id == id)
 
 /-- the fast path of blocksFromCursor: cursor block and LIB are on the head segment (after the F-C05 fix) -/
